@@ -2,6 +2,9 @@
 L9b: two replicas — progress of anti-entropy, bounded rounds, join result (C05).
 -/
 import MstVerif.Proofs.Sync
+import Mathlib.Order.Basic
+import Mathlib.Order.Lattice
+import Mathlib.Tactic.Order
 
 namespace Mst
 variable {K V D : Type} [LinearOrder K] [LinearOrder V] [DecidableEq D]
@@ -12,9 +15,342 @@ def disagreeKeys (a b : List (K × V)) : List K :=
 
 def disagree (a b : List (K × V)) : Nat := (disagreeKeys a b).length
 
+/-! ### Helpers: lookups, store extensionality, `eraseDups` -/
+
+theorem nodup_eraseDups {α : Type} [BEq α] [LawfulBEq α] : ∀ (l : List α), l.eraseDups.Nodup
+  | [] => by simp
+  | a :: as => by
+    rw [List.eraseDups_cons, List.nodup_cons]
+    refine ⟨?_, nodup_eraseDups _⟩
+    simp [List.mem_eraseDups]
+termination_by l => l.length
+decreasing_by
+  simp only [List.length_cons]
+  exact Nat.lt_succ_of_le (List.length_filter_le _ _)
+
+theorem lookupKV_ne_none_iff (s : List (K × V)) (k : K) :
+    lookupKV k s ≠ none ↔ k ∈ s.map Prod.fst := by
+  rw [Ne, lookupKV_eq_none]
+  constructor
+  · intro h
+    by_contra hk
+    apply h
+    intro v hv
+    exact hk (List.mem_map.2 ⟨(k, v), hv, rfl⟩)
+  · intro hk h
+    obtain ⟨⟨k', v⟩, hm, rfl⟩ := List.mem_map.1 hk
+    exact h v hm
+
+theorem store_ext (s t : List (K × V)) (hs : KSorted s) (ht : KSorted t)
+    (h : ∀ k, lookupKV k s = lookupKV k t) : s = t := by
+  apply ksorted_ext s t hs ht
+  rintro ⟨k, v⟩
+  rw [← lookupKV_eq_some s hs, ← lookupKV_eq_some t ht, h]
+
+theorem mem_disagreeKeys (a b : List (K × V)) (k : K) :
+    k ∈ disagreeKeys a b ↔ lookupKV k a ≠ lookupKV k b := by
+  unfold disagreeKeys
+  rw [List.mem_filter, List.mem_eraseDups, List.mem_append, decide_eq_true_iff]
+  constructor
+  · exact fun h => h.2
+  · intro h
+    refine ⟨?_, h⟩
+    by_cases ha : lookupKV k a = none
+    · right
+      rw [← lookupKV_ne_none_iff]
+      intro hb
+      exact h (ha.trans hb.symm)
+    · left
+      exact (lookupKV_ne_none_iff a k).1 ha
+
+theorem nodup_disagreeKeys (a b : List (K × V)) : (disagreeKeys a b).Nodup := by
+  unfold disagreeKeys
+  exact (nodup_eraseDups _).filter _
+
 theorem disagree_eq_zero (a b : List (K × V)) (ha : KSorted a) (hb : KSorted b) :
     disagree a b = 0 ↔ a = b := by
-  sorry
+  unfold disagree
+  rw [List.length_eq_zero_iff]
+  constructor
+  · intro h
+    apply store_ext a b ha hb
+    intro k
+    by_contra hk
+    have := (mem_disagreeKeys a b k).2 hk
+    rw [h] at this
+    exact absurd this (by simp)
+  · rintro rfl
+    apply List.eq_nil_iff_forall_not_mem.2
+    intro k hk
+    exact (mem_disagreeKeys a a k).1 hk rfl
+
+theorem disagree_le_of (a b a' b' : List (K × V))
+    (hsub : ∀ k, lookupKV k a' ≠ lookupKV k b' → lookupKV k a ≠ lookupKV k b) :
+    disagree a' b' ≤ disagree a b := by
+  unfold disagree
+  apply List.Nodup.length_le_of_subset (nodup_disagreeKeys a' b')
+  intro k hk
+  exact (mem_disagreeKeys a b k).2 (hsub k ((mem_disagreeKeys a' b' k).1 hk))
+
+theorem disagree_lt_of (a b a' b' : List (K × V)) (k0 : K)
+    (hsub : ∀ k, lookupKV k a' ≠ lookupKV k b' → lookupKV k a ≠ lookupKV k b)
+    (h0 : lookupKV k0 a ≠ lookupKV k0 b) (h0' : lookupKV k0 a' = lookupKV k0 b') :
+    disagree a' b' < disagree a b := by
+  unfold disagree
+  have hnd : (k0 :: disagreeKeys a' b').Nodup := by
+    rw [List.nodup_cons]
+    refine ⟨?_, nodup_disagreeKeys a' b'⟩
+    intro hk
+    exact (mem_disagreeKeys a' b' k0).1 hk h0'
+  have := List.Nodup.length_le_of_subset hnd (l₂ := disagreeKeys a b) (by
+    intro k hk
+    rcases List.mem_cons.1 hk with rfl | hk
+    · exact (mem_disagreeKeys a b _).2 h0
+    · exact (mem_disagreeKeys a b k).2 (hsub k ((mem_disagreeKeys a' b' k).1 hk)))
+  simpa [Nat.lt_iff_add_one_le] using this
+
+/-! ### One pull at the level of lookup functions -/
+
+/-- The receiver's new value at a fetched key: old value `x`, sender's value `y`. -/
+def pullLk (m : Merge) (x y : Option V) : Option V :=
+  match y with
+  | none => x
+  | some v => some (m.apply x v)
+
+/-- Every key of `r` lies between two keys of `s` (the span condition of `pull_spec`). -/
+def Cover (s r : List (K × V)) : Prop :=
+  ∀ x ∈ r.map Prod.fst, (∃ y ∈ s.map Prod.fst, y ≤ x) ∧ (∃ z ∈ s.map Prod.fst, x ≤ z)
+
+theorem inRanges_nil (k : K) : inRanges ([] : List (DR K)) k = false := by
+  simp [inRanges]
+
+/-- Agreement is preserved by a fetch. -/
+theorem pullLk_of_eq (m : Merge) (x y : Option V) (h : x = y) : pullLk m x y = x := by
+  subst h
+  cases x with
+  | none => rfl
+  | some v => cases m <;> simp [pullLk, Merge.apply]
+
+/-- If a fetch changes the receiver's value, the receiver now holds the sender's value. -/
+theorem pullLk_of_ne (m : Merge) (x y : Option V) (h : pullLk m x y ≠ x) :
+    pullLk m x y = y ∧ x ≠ y := by
+  cases y with
+  | none => exact absurd rfl h
+  | some v =>
+    cases x with
+    | none => exact ⟨rfl, by simp⟩
+    | some o =>
+      cases m with
+      | peerWins =>
+        refine ⟨rfl, ?_⟩
+        intro e; apply h; rw [e]; rfl
+      | joinMax =>
+        simp only [pullLk, Merge.apply] at h ⊢
+        by_cases hlt : o < v
+        · simp only [hlt, if_true] at h ⊢
+          refine ⟨trivial, ?_⟩
+          intro e
+          exact h e.symm
+        · simp [hlt] at h
+
+/-- Two different values cannot both be fixed by fetching the other. -/
+theorem pullLk_both_fixed (m : Merge) (x y : Option V) (hne : x ≠ y)
+    (h1 : y ≠ none → pullLk m x y = x) (h2 : x ≠ none → pullLk m y x = y) : False := by
+  cases x with
+  | none =>
+    cases y with
+    | none => exact hne rfl
+    | some v =>
+      have := h1 (by simp)
+      simp [pullLk] at this
+  | some o =>
+    cases y with
+    | none =>
+      have := h2 (by simp)
+      simp [pullLk] at this
+    | some v =>
+      have e1 := h1 (by simp)
+      have e2 := h2 (by simp)
+      have hov : o ≠ v := fun e => hne (by rw [e])
+      cases m with
+      | peerWins =>
+        simp only [pullLk, Merge.apply, Option.some.injEq] at e1
+        exact hov e1.symm
+      | joinMax =>
+        simp only [pullLk, Merge.apply, Option.some.injEq] at e1 e2
+        by_cases c1 : o < v
+        · rw [if_pos c1] at e1; exact hov e1.symm
+        · by_cases c2 : v < o
+          · rw [if_pos c2] at e2; exact hov e2
+          · exact hov (le_antisymm (not_lt.1 c2) (not_lt.1 c1))
+
+/-- `pull_spec` restated with lookup functions. -/
+theorem pull_lookup (lvl : K → Nat) (hlvl : ∀ k, lvl k < 255) (hc : HashCfg K V D) (m : Merge)
+    (a b : Replica K V D) (ha : RInv lvl hc a) (hb : RInv lvl hc b) :
+    ∃ (R : List (DR K)) (a' b' : Replica K V D), pull lvl hc m a b = .ok (a', b') ∧
+      RInv lvl hc a' ∧ RInv lvl hc b' ∧ b'.store = b.store ∧
+      (∀ k, lookupKV k a'.store =
+        if inRanges R k = true then pullLk m (lookupKV k a.store) (lookupKV k b.store)
+        else lookupKV k a.store) ∧
+      (a.store = b.store → R = []) ∧
+      (NoCollisions hc → Cover b.store a.store →
+        ∀ k, lookupKV k b.store ≠ none → lookupKV k a.store ≠ lookupKV k b.store →
+          inRanges R k = true) ∧
+      (∀ a0 a1 b0 b1 : K × V, a.store.head? = some a0 → a.store.getLast? = some a1 →
+        b.store.head? = some b0 → b.store.getLast? = some b1 → b0.1 < a0.1 → b1.1 < a1.1 →
+        inRanges R b0.1 = true) := by
+  obtain ⟨R, a', b', hp, ha', hb', hbs, has, hemp, _, hcomp, hhead⟩ :=
+    pull_spec lvl hlvl hc m a b ha hb
+  refine ⟨R, a', b', hp, ha', hb', hbs, ?_, hemp, ?_, hhead⟩
+  · intro k
+    rw [has, lookup_absorbStore m a.store (fetch b.store R) ha.sorted
+      (fetch_sorted b.store hb.sorted R) k, lookup_fetch b.store hb.sorted R k]
+    by_cases hr : inRanges R k = true
+    · simp only [hr, if_true]
+      cases lookupKV k b.store <;> rfl
+    · simp only [hr]
+      rfl
+  · intro hnc hcov k hkb hne
+    cases hv : lookupKV k b.store with
+    | none => exact absurd hv hkb
+    | some v =>
+      have hmem : (k, v) ∈ b.store := (lookupKV_eq_some b.store hb.sorted k v).1 hv
+      have hnmem : (k, v) ∉ a.store := by
+        intro hm
+        apply hne
+        rw [hv]
+        exact (lookupKV_eq_some a.store ha.sorted k v).2 hm
+      exact hcomp hnc hcov (k, v) hmem hnmem
+
+/-- Effect of one pull on agreement: no new disagreement, and a change of the receiver removes one. -/
+theorem recv_step (m : Merge) (x y x' : List (K × V)) (hx : KSorted x) (hx' : KSorted x')
+    (P : K → Bool)
+    (h : ∀ k, lookupKV k x' =
+      if P k = true then pullLk m (lookupKV k x) (lookupKV k y) else lookupKV k x) :
+    (∀ k, lookupKV k x' ≠ lookupKV k y → lookupKV k x ≠ lookupKV k y) ∧
+    (x' ≠ x → ∃ k0, lookupKV k0 x ≠ lookupKV k0 y ∧ lookupKV k0 x' = lookupKV k0 y) := by
+  constructor
+  · intro k hk e
+    apply hk
+    rw [h k]
+    split
+    · rw [pullLk_of_eq m _ _ e, e]
+    · exact e
+  · intro hne
+    have : ¬ ∀ k, lookupKV k x' = lookupKV k x := fun hall => hne (store_ext x' x hx' hx hall)
+    obtain ⟨k0, hk0⟩ := not_forall.1 this
+    refine ⟨k0, ?_⟩
+    rw [h k0] at hk0 ⊢
+    by_cases hp : P k0 = true
+    · simp only [hp, if_true] at hk0 ⊢
+      obtain ⟨e1, e2⟩ := pullLk_of_ne m _ _ hk0
+      exact ⟨e2, e1⟩
+    · simp [hp] at hk0
+
+/-! ### Progress -/
+
+omit [LinearOrder V] in
+theorem ksorted_head_le (s : List (K × V)) (hs : KSorted s) (h0 : K × V) (hh : s.head? = some h0) :
+    h0.1 ∈ s.map Prod.fst ∧ ∀ x ∈ s.map Prod.fst, h0.1 ≤ x := by
+  obtain ⟨t, rfl⟩ := List.head?_eq_some_iff.1 hh
+  refine ⟨by simp, ?_⟩
+  intro x hx
+  simp only [KSorted, List.map_cons, List.pairwise_cons] at hs
+  rw [List.map_cons, List.mem_cons] at hx
+  rcases hx with rfl | hx
+  · exact le_refl _
+  · exact le_of_lt (hs.1 x hx)
+
+omit [LinearOrder V] in
+theorem ksorted_le_last (s : List (K × V)) (hs : KSorted s) (l : K × V) (hl : s.getLast? = some l) :
+    l.1 ∈ s.map Prod.fst ∧ ∀ x ∈ s.map Prod.fst, x ≤ l.1 := by
+  obtain ⟨t, rfl⟩ := List.getLast?_eq_some_iff.1 hl
+  refine ⟨by simp, ?_⟩
+  intro x hx
+  simp only [KSorted, List.map_append, List.map_cons, List.map_nil, List.pairwise_append] at hs
+  rw [List.map_append, List.mem_append] at hx
+  rcases hx with hx | hx
+  · exact le_of_lt (hs.2.2 x hx l.1 (by simp))
+  · simp at hx
+    rw [hx]
+
+/-- If the sender's span covers the receiver's, one of the two pulls changes its receiver. -/
+theorem cover_progress (lvl : K → Nat) (hlvl : ∀ k, lvl k < 255) (hc : HashCfg K V D)
+    (hnc : NoCollisions hc) (m : Merge)
+    (a b : Replica K V D) (ha : RInv lvl hc a) (hb : RInv lvl hc b) (hne : a.store ≠ b.store)
+    (hcov : Cover b.store a.store) :
+    (∃ a' b', pull lvl hc m a b = .ok (a', b') ∧ a'.store ≠ a.store) ∨
+    (∃ b' a', pull lvl hc m b a = .ok (b', a') ∧ b'.store ≠ b.store) := by
+  obtain ⟨R, a', b', hp, ha', _, _, hA', _, hfetch, _⟩ := pull_lookup lvl hlvl hc m a b ha hb
+  by_cases hch : a'.store = a.store
+  swap
+  · exact Or.inl ⟨a', b', hp, hch⟩
+  right
+  have hF := hfetch hnc hcov
+  -- every differing key held by `b` is fetched and left `a` unchanged
+  have hfix1 : ∀ k, lookupKV k a.store ≠ lookupKV k b.store → lookupKV k b.store ≠ none →
+      pullLk m (lookupKV k a.store) (lookupKV k b.store) = lookupKV k a.store := by
+    intro k hk hkb
+    have := hA' k
+    rw [hch, if_pos (hF k hkb hk)] at this
+    exact this.symm
+  have hsub : ∀ k, lookupKV k b.store ≠ none → lookupKV k a.store ≠ none := by
+    intro k hkb hka
+    have hk : lookupKV k a.store ≠ lookupKV k b.store := by
+      rw [hka]; exact fun e => hkb e.symm
+    have := hfix1 k hk hkb
+    rw [hka] at this
+    cases hv : lookupKV k b.store with
+    | none => exact hkb hv
+    | some v => rw [hv] at this; simp [pullLk] at this
+  have hcov' : Cover a.store b.store := by
+    intro x hx
+    have hxa : x ∈ a.store.map Prod.fst :=
+      (lookupKV_ne_none_iff a.store x).1 (hsub x ((lookupKV_ne_none_iff b.store x).2 hx))
+    exact ⟨⟨x, hxa, le_refl _⟩, ⟨x, hxa, le_refl _⟩⟩
+  obtain ⟨R', b'', a'', hp', hb'', _, _, hB', _, hfetch', _⟩ := pull_lookup lvl hlvl hc m b a hb ha
+  refine ⟨b'', a'', hp', ?_⟩
+  intro hch'
+  have hF' := hfetch' hnc hcov'
+  have hfix2 : ∀ k, lookupKV k b.store ≠ lookupKV k a.store → lookupKV k a.store ≠ none →
+      pullLk m (lookupKV k b.store) (lookupKV k a.store) = lookupKV k b.store := by
+    intro k hk hka
+    have := hB' k
+    rw [hch', if_pos (hF' k hka hk)] at this
+    exact this.symm
+  have : ¬ ∀ k, lookupKV k a.store = lookupKV k b.store :=
+    fun hall => hne (store_ext _ _ ha.sorted hb.sorted hall)
+  obtain ⟨k, hk⟩ := not_forall.1 this
+  exact pullLk_both_fixed m _ _ hk (hfix1 k hk) (hfix2 k (Ne.symm hk))
+
+/-- If the sender starts strictly first and ends strictly first, the receiver gains the sender's
+smallest key. -/
+theorem first_progress (lvl : K → Nat) (hlvl : ∀ k, lvl k < 255) (hc : HashCfg K V D) (m : Merge)
+    (a b : Replica K V D) (ha : RInv lvl hc a) (hb : RInv lvl hc b)
+    (a0 a1 b0 b1 : K × V) (h1 : a.store.head? = some a0) (h2 : a.store.getLast? = some a1)
+    (h3 : b.store.head? = some b0) (h4 : b.store.getLast? = some b1)
+    (hlt0 : b0.1 < a0.1) (hlt1 : b1.1 < a1.1) :
+    ∃ a' b', pull lvl hc m a b = .ok (a', b') ∧ a'.store ≠ a.store := by
+  obtain ⟨R, a', b', hp, _, _, _, hA', _, _, hhead⟩ := pull_lookup lvl hlvl hc m a b ha hb
+  refine ⟨a', b', hp, ?_⟩
+  intro hch
+  have hin := hhead a0 a1 b0 b1 h1 h2 h3 h4 hlt0 hlt1
+  have hka : lookupKV b0.1 a.store = none := by
+    by_contra hk
+    have := (ksorted_head_le a.store ha.sorted a0 h1).2 _ ((lookupKV_ne_none_iff _ _).1 hk)
+    exact absurd hlt0 (not_lt.2 this)
+  have hkb : lookupKV b0.1 b.store ≠ none :=
+    (lookupKV_ne_none_iff _ _).2 (ksorted_head_le b.store hb.sorted b0 h3).1
+  have := hA' b0.1
+  rw [hch, if_pos hin, hka] at this
+  cases hv : lookupKV b0.1 b.store with
+  | none => exact hkb hv
+  | some v => rw [hv] at this; simp [pullLk] at this
+
+omit [LinearOrder V] in
+theorem cover_nil (s : List (K × V)) : Cover s ([] : List (K × V)) := by
+  intro x hx
+  simp at hx
 
 /-- C05, first sentence: two replicas with different content — pulling in at least one of the two
 directions changes the receiver, for the join (max) merge and for peer-wins. -/
@@ -23,7 +359,52 @@ theorem pull_progress (lvl : K → Nat) (hlvl : ∀ k, lvl k < 255) (hc : HashCf
     (a b : Replica K V D) (ha : RInv lvl hc a) (hb : RInv lvl hc b) (hne : a.store ≠ b.store) :
     (∃ a' b', pull lvl hc m a b = .ok (a', b') ∧ a'.store ≠ a.store) ∨
     (∃ b' a', pull lvl hc m b a = .ok (b', a') ∧ b'.store ≠ b.store) := by
-  sorry
+  have hsymm := fun hcov => (cover_progress lvl hlvl hc hnc m b a hb ha (Ne.symm hne) hcov).symm
+  cases h1 : a.store.head? with
+  | none =>
+    rw [List.head?_eq_none_iff] at h1
+    exact cover_progress lvl hlvl hc hnc m a b ha hb hne (by rw [h1]; exact cover_nil _)
+  | some a0 =>
+  cases h2 : a.store.getLast? with
+  | none =>
+    rw [List.getLast?_eq_none_iff] at h2
+    exact cover_progress lvl hlvl hc hnc m a b ha hb hne (by rw [h2]; exact cover_nil _)
+  | some a1 =>
+  cases h3 : b.store.head? with
+  | none =>
+    rw [List.head?_eq_none_iff] at h3
+    exact hsymm (by rw [h3]; exact cover_nil _)
+  | some b0 =>
+  cases h4 : b.store.getLast? with
+  | none =>
+    rw [List.getLast?_eq_none_iff] at h4
+    exact hsymm (by rw [h4]; exact cover_nil _)
+  | some b1 =>
+  obtain ⟨ma0, la0⟩ := ksorted_head_le a.store ha.sorted a0 h1
+  obtain ⟨ma1, la1⟩ := ksorted_le_last a.store ha.sorted a1 h2
+  obtain ⟨mb0, lb0⟩ := ksorted_head_le b.store hb.sorted b0 h3
+  obtain ⟨mb1, lb1⟩ := ksorted_le_last b.store hb.sorted b1 h4
+  by_cases c1 : b0.1 ≤ a0.1 ∧ a1.1 ≤ b1.1
+  · apply cover_progress lvl hlvl hc hnc m a b ha hb hne
+    intro x hx
+    exact ⟨⟨b0.1, mb0, le_trans c1.1 (la0 x hx)⟩, ⟨b1.1, mb1, le_trans (la1 x hx) c1.2⟩⟩
+  by_cases c2 : a0.1 ≤ b0.1 ∧ b1.1 ≤ a1.1
+  · apply hsymm
+    intro x hx
+    exact ⟨⟨a0.1, ma0, le_trans c2.1 (lb0 x hx)⟩, ⟨a1.1, ma1, le_trans (lb1 x hx) c2.2⟩⟩
+  rcases lt_trichotomy b0.1 a0.1 with hlt | heq | hgt
+  · have hlt1 : b1.1 < a1.1 := by
+      by_contra hn
+      exact c1 ⟨le_of_lt hlt, not_lt.1 hn⟩
+    exact Or.inl (first_progress lvl hlvl hc m a b ha hb a0 a1 b0 b1 h1 h2 h3 h4 hlt hlt1)
+  · exfalso
+    by_cases hle : a1.1 ≤ b1.1
+    · exact c1 ⟨le_of_eq heq, hle⟩
+    · exact c2 ⟨le_of_eq heq.symm, le_of_lt (not_le.1 hle)⟩
+  · have hlt1 : a1.1 < b1.1 := by
+      by_contra hn
+      exact c2 ⟨le_of_lt hgt, not_lt.1 hn⟩
+    exact Or.inr (first_progress lvl hlvl hc m b a hb ha b0 b1 a0 a1 h3 h4 h1 h2 hgt hlt1)
 
 /-- `n` two-way rounds. -/
 def syncRounds (lvl : K → Nat) (hc : HashCfg K V D) (m : Merge) :
@@ -41,6 +422,130 @@ def joinLookup (a b : List (K × V)) (k : K) : Option V :=
   | x, none => x
   | some x, some y => some (max x y)
 
+/-! ### One round -/
+
+/-- Pointwise join of two optional values. -/
+def joinO (x y : Option V) : Option V :=
+  match x, y with
+  | none, y => y
+  | x, none => x
+  | some x, some y => some (max x y)
+
+theorem joinLookup_eq (a b : List (K × V)) (k : K) :
+    joinLookup a b k = joinO (lookupKV k a) (lookupKV k b) := by
+  unfold joinLookup joinO
+  cases lookupKV k a <;> cases lookupKV k b <;> rfl
+
+theorem joinO_self (x : Option V) : joinO x x = x := by
+  cases x <;> simp [joinO]
+
+theorem joinO_pull_left (x y : Option V) : joinO (pullLk .joinMax x y) y = joinO x y := by
+  cases x with
+  | none => cases y <;> simp [joinO, pullLk, Merge.apply]
+  | some o =>
+    cases y with
+    | none => simp [joinO, pullLk]
+    | some v =>
+      simp only [joinO, pullLk, Merge.apply]
+      by_cases h : o < v
+      · rw [if_pos h, max_self, max_eq_right (le_of_lt h)]
+      · rw [if_neg h]
+
+theorem joinO_pull_right (x y : Option V) : joinO y (pullLk .joinMax x y) = joinO y x := by
+  cases x with
+  | none => cases y <;> simp [joinO, pullLk, Merge.apply]
+  | some o =>
+    cases y with
+    | none => simp [joinO, pullLk]
+    | some v =>
+      simp only [joinO, pullLk, Merge.apply]
+      by_cases h : o < v
+      · rw [if_pos h, max_self, max_eq_left (le_of_lt h)]
+      · rw [if_neg h]
+
+omit [LinearOrder V] [DecidableEq D] in
+theorem rootHash_eq_of_store_eq (lvl : K → Nat) (hc : HashCfg K V D) (a b : Replica K V D)
+    (ha : RInv lvl hc a) (hb : RInv lvl hc b) (h : a.store = b.store) :
+    (a.tree.genRootHash hc).rootHash = (b.tree.genRootHash hc).rootHash := by
+  obtain ⟨_, e1, _⟩ := genRootHash_inv lvl hc a.tree ha.inv
+  obtain ⟨_, e2, _⟩ := genRootHash_inv lvl hc b.tree hb.inv
+  rw [e1, e2, ← trueHash_erase hc a.tree.root, ← trueHash_erase hc b.tree.root,
+    root_unique lvl _ _ ha.inv.shape hb.inv.shape (by rw [ha.mirror, hb.mirror, h])]
+
+/-- One two-way round: never panics, keeps the invariants, is idle on equal stores, strictly
+reduces the disagreement otherwise and (join merge) preserves the pointwise join. -/
+theorem round_spec (lvl : K → Nat) (hlvl : ∀ k, lvl k < 255) (hc : HashCfg K V D) (m : Merge)
+    (a b : Replica K V D) (ha : RInv lvl hc a) (hb : RInv lvl hc b) :
+    ∃ a2 b2, syncRound lvl hc m a b = .ok (a2, b2) ∧ RInv lvl hc a2 ∧ RInv lvl hc b2 ∧
+      (a.store = b.store → a2.store = a.store ∧ b2.store = b.store) ∧
+      (NoCollisions hc → a.store ≠ b.store →
+        disagree a2.store b2.store < disagree a.store b.store) ∧
+      (m = .joinMax → ∀ k, joinLookup a2.store b2.store k = joinLookup a.store b.store k) := by
+  obtain ⟨R1, b1, a1, hp1, hb1, ha1, has1, hB1, hemp1, _, _⟩ :=
+    pull_lookup lvl hlvl hc m b a hb ha
+  obtain ⟨R2, a2, b2, hp2, ha2, hb2, hbs2, hA2, hemp2, _, _⟩ :=
+    pull_lookup lvl hlvl hc m a1 b1 ha1 hb1
+  rw [has1] at hA2 hemp2
+  refine ⟨a2, b2, ?_, ha2, hb2, ?_, ?_, ?_⟩
+  · simp [syncRound, hp1, hp2]
+  · intro heq
+    have e1 : b1.store = b.store := by
+      apply store_ext _ _ hb1.sorted hb.sorted
+      intro k
+      rw [hB1 k, hemp1 heq.symm, inRanges_nil]
+      simp
+    have e2 : a2.store = a.store := by
+      apply store_ext _ _ ha2.sorted ha.sorted
+      intro k
+      rw [hA2 k, hemp2 (by rw [e1, heq]), inRanges_nil]
+      simp
+    exact ⟨e2, hbs2.trans e1⟩
+  · intro hnc hne
+    obtain ⟨s1, c1⟩ := recv_step m b.store a.store b1.store hb.sorted hb1.sorted
+      (fun k => inRanges R1 k) hB1
+    obtain ⟨s2, c2⟩ := recv_step m a.store b1.store a2.store ha.sorted ha2.sorted
+      (fun k => inRanges R2 k) hA2
+    rw [hbs2]
+    have s1' : ∀ k, lookupKV k a.store ≠ lookupKV k b1.store →
+        lookupKV k a.store ≠ lookupKV k b.store := fun k h => (s1 k h.symm).symm
+    have le1 : disagree a.store b1.store ≤ disagree a.store b.store :=
+      disagree_le_of _ _ _ _ s1'
+    have le2 : disagree a2.store b1.store ≤ disagree a.store b1.store :=
+      disagree_le_of _ _ _ _ s2
+    by_cases hch1 : b1.store = b.store
+    · have hch2 : a2.store ≠ a.store := by
+        rcases pull_progress lvl hlvl hc hnc m a1 b1 ha1 hb1 (by rw [has1, hch1]; exact hne) with
+          ⟨x, y, hp, hx⟩ | ⟨x, y, hp, hx⟩
+        · rw [hp2] at hp
+          simp only [Except.ok.injEq, Prod.mk.injEq] at hp
+          obtain ⟨rfl, rfl⟩ := hp
+          rwa [has1] at hx
+        · exfalso
+          obtain ⟨u, v, u', v', q1, q2, e, _⟩ :=
+            pull_store_congr lvl hlvl hc m b1 a1 b a hb1 ha1 hb ha hch1 has1
+          rw [hp] at q1
+          rw [hp1] at q2
+          simp only [Except.ok.injEq, Prod.mk.injEq] at q1 q2
+          obtain ⟨rfl, rfl⟩ := q1
+          obtain ⟨rfl, rfl⟩ := q2
+          exact hx e
+      obtain ⟨k0, d0, d0'⟩ := c2 hch2
+      exact lt_of_lt_of_le (disagree_lt_of _ _ _ _ k0 s2 d0 d0') le1
+    · obtain ⟨k0, d0, d0'⟩ := c1 hch1
+      exact lt_of_le_of_lt le2 (disagree_lt_of _ _ _ _ k0 s1' d0.symm d0'.symm)
+  · rintro rfl k
+    rw [joinLookup_eq, joinLookup_eq, hbs2, hA2 k]
+    have h1 : joinO (lookupKV k a.store) (lookupKV k b1.store) =
+        joinO (lookupKV k a.store) (lookupKV k b.store) := by
+      rw [hB1 k]
+      split
+      · exact joinO_pull_right _ _
+      · rfl
+    rw [← h1]
+    split
+    · exact joinO_pull_left _ _
+    · rfl
+
 /-- C05, second sentence: repeated two-way rounds never panic, keep both replicas consistent with
 their stores, and after at most as many rounds as there were disagreeing keys both replicas hold
 the same content and report the same root hash; under the join merge the common content is exactly
@@ -53,12 +558,33 @@ theorem sync_converges (lvl : K → Nat) (hlvl : ∀ k, lvl k < 255) (hc : HashC
       a'.store = b'.store ∧
       (a'.tree.genRootHash hc).rootHash = (b'.tree.genRootHash hc).rootHash ∧
       (m = .joinMax → ∀ k, lookupKV k a'.store = joinLookup a.store b.store k) := by
-  sorry
+  induction n generalizing a b with
+  | zero =>
+    have heq : a.store = b.store :=
+      (disagree_eq_zero _ _ ha.sorted hb.sorted).1 (Nat.le_zero.1 hn)
+    refine ⟨a, b, rfl, ha, hb, heq, rootHash_eq_of_store_eq lvl hc a b ha hb heq, ?_⟩
+    intro _ k
+    rw [joinLookup_eq, ← heq, joinO_self]
+  | succ n ih =>
+    obtain ⟨a2, b2, hr, ha2, hb2, hq, hlt, hj⟩ := round_spec lvl hlvl hc m a b ha hb
+    have hn' : disagree a2.store b2.store ≤ n := by
+      by_cases heq : a.store = b.store
+      · obtain ⟨e1, e2⟩ := hq heq
+        rw [e1, e2, (disagree_eq_zero _ _ ha.sorted hb.sorted).2 heq]
+        exact Nat.zero_le _
+      · have := hlt hnc heq
+        omega
+    obtain ⟨a', b', hr', ha', hb', heq', hh, hj'⟩ := ih a2 b2 ha2 hb2 hn'
+    refine ⟨a', b', ?_, ha', hb', heq', hh, ?_⟩
+    · simp [syncRounds, hr, hr']
+    · intro hm k
+      rw [hj' hm k, hj hm k]
 
 /-- Rounds after convergence change nothing (quiescence). -/
 theorem sync_quiescent (lvl : K → Nat) (hlvl : ∀ k, lvl k < 255) (hc : HashCfg K V D) (m : Merge)
     (a b : Replica K V D) (ha : RInv lvl hc a) (hb : RInv lvl hc b) (heq : a.store = b.store) :
     ∃ a' b', syncRound lvl hc m a b = .ok (a', b') ∧ a'.store = a.store ∧ b'.store = b.store := by
-  sorry
+  obtain ⟨a2, b2, hr, _, _, hq, _, _⟩ := round_spec lvl hlvl hc m a b ha hb
+  exact ⟨a2, b2, hr, hq heq⟩
 
 end Mst
